@@ -106,7 +106,7 @@ IsHtmlName(n)  == EndsWith(n, ".html") \/ EndsWith(n, ".htm")
 WellFormedDir(dd) == \A a, b \in dd.kids : a.name = b.name => a = b
 
 \* pygopherd.fileext.extstrip under extstrip = nonencoded, for the extensions of the alphabets
-StripExts == {".txt", ".pdf", ".html", ".gif"}
+StripExts == {".txt", ".pdf", ".html", ".gif", ".cache", ".cap"}   \* known to conf/mime.types
 ExtStrip(n) == IF \E e \in StripExts : EndsWith(n, e)
                THEN LET e == CHOOSE x \in StripExts : EndsWith(n, x) IN SubSeq(n, 1, Len(n) - Len(e))
                ELSE n
@@ -198,7 +198,8 @@ FinishOp(pp) ==
                              listing |-> [i \in DOMAIN pp.ents |-> [sel |-> pp.ents[i].sel, title |-> pp.ents[i].title]]]]
 
 IsEnumOf(dd, o) == Range(o) = Names(dd) /\ NoDupSeq(o)
-EnumSeen(o) == IF SortedEnum THEN SortStrSeq(o) ELSE o
+EnumSeenM(o, se) == IF se THEN SortStrSeq(o) ELSE o
+EnumSeen(o) == EnumSeenM(o, SortedEnum)
 
 RECURSIVE FilterFold(_, _, _)
 FilterFold(dd, ns, pp) == IF ns = <<>> THEN pp ELSE FilterFold(dd, Tail(ns), FilterOne(dd, Head(ns), pp))
@@ -207,11 +208,13 @@ ResolveFold(dd, ns, pp) == IF ns = <<>> THEN pp ELSE ResolveFold(dd, Tail(ns), R
 SortNamesOp(pp) == [pp EXCEPT !.files = SortStrSeq(@)]
 
 \* the whole listing request as a function of the directory and the OS enumeration order
-Pipeline(dd, o) ==
-    LET p1 == FilterFold(dd, EnumSeen(o), P0)
+\* (se: whether the enumeration is sorted before the filter loop - repaired - or not - pinned)
+PipelineM(dd, o, se) ==
+    LET p1 == FilterFold(dd, EnumSeenM(o, se), P0)
         p2 == SortNamesOp(p1)
         p3 == ResolveFold(dd, p2.files, p2)
     IN FinishOp(FinalSortOp(dd, MergeAll(dd, p3))).out
+Pipeline(dd, o) == PipelineM(dd, o, SortedEnum)
 
 \* names whose own path the pipeline touches (stat/open), in order, up to an abort
 RECURSIVE TouchFold(_, _, _, _)
@@ -223,10 +226,18 @@ DotTouchFold(dd, ns, pp, acc) ==
     IF ns = <<>> \/ ~Running(pp) THEN acc
     ELSE DotTouchFold(dd, Tail(ns), FilterOne(dd, Head(ns), pp),
                       IF dd.handler = "umn" /\ IsDot(Head(ns)) /\ ~Ignored(dd, Head(ns)) THEN Append(acc, Head(ns)) ELSE acc)
-PredictedTouches(dd, o) ==
-    LET p1 == FilterFold(dd, EnumSeen(o), P0)
+PredictedTouchesM(dd, o, se) ==
+    LET p1 == FilterFold(dd, EnumSeenM(o, se), P0)
         p2 == SortNamesOp(p1)
-    IN TouchFold(dd, p2.files, p2, DotTouchFold(dd, EnumSeen(o), P0, <<>>))
+    IN TouchFold(dd, p2.files, p2, DotTouchFold(dd, EnumSeenM(o, se), P0, <<>>))
+PredictedTouches(dd, o) == PredictedTouchesM(dd, o, SortedEnum)
+
+\* design-level expectation of the trace specifications: what the code does is what the model of the
+\* repaired code OR the model of the pinned code (link files in enumeration order) predicts
+Expect(dd, o) ==
+    [touches |-> {PredictedTouchesM(dd, o, se) : se \in BOOLEAN},
+     outs    |-> {[kind |-> PipelineM(dd, o, se).kind, listing |-> PipelineM(dd, o, se).listing] : se \in BOOLEAN}]
+NoExpect == [touches |-> {}, outs |-> {}]
 --------------------------------------------------------------------------------
 (* The state machine.                                                                       *)
 DirInit(dd) == d = dd /\ raw = <<>> /\ pc = "start" /\ j = 0 /\ p = P0
